@@ -146,6 +146,11 @@ func (m *module) loadModule(proj *Project, rawLabel string) (starlark.StringDict
 	}
 	label, _ = label.RelativeTo(m.label.Package)
 	label.Kind = "module"
+	if label.Name == "" {
+		// A label without a name refers to the package's BUILD.dawn, which is registered
+		// under its full name when the package itself is loaded.
+		label.Name = "BUILD.dawn"
+	}
 
 	m.dependencies = append(m.dependencies, label.String())
 	return proj.loadModule(m, label)
